@@ -179,6 +179,31 @@ def check_wrapper(ctx, fb, w, cfg, tag=""):
         meth, ",".join(kinds), "bool"), where)
 
 
+def check_wrapper_panics(ctx, fb, w, cfg, rule="R11-6"):
+    """R11-6: the wrapper's own code (macro expansion included) cannot panic: a panic inside an `extern "C"` function aborts the
+    process, where the Rust API returns Err. Every bounds / unwrap / expect / arithmetic obligation on every path of the wrapper,
+    with the rln::public method opaque, must be discharged by the path's own conditions. (The pointer dereferences are the FFI
+    contract and generate no obligation.)"""
+    from .. import panics
+    eng = Engine(fb, inline=inline_only(r"ffi::"), max_depth=4)
+    paths = eng.run(w)
+    tot, done, und = panics.analyse(paths)
+    # `&v[..]` (RangeFull) cannot fail: its obligation carries no bound
+    und = [u for u in und if not (u["kind"] == "SliceIndex" and len(u["ops"]) == 3 and u["ops"][1] is None and u["ops"][2] is None)]
+    # closures of the wrapper (iterator adaptors in a macro body) run inside the extern function as well
+    for c in fb.closures_of(w.path):
+        t2, d2, u2 = panics.analyse(Engine(fb, inline=inline_only(r"ffi::"), max_depth=4).run(c))
+        tot += t2
+        und += u2
+    inst = "%s[%s] no panic" % (w.path, cfg)
+    if und:
+        u = und[0]
+        ctx.fail(rule, inst, "the wrapper can panic inside the extern \"C\" function (process abort instead of `false`): %s obligation `%s` is not "
+                 "implied by the path's conditions" % (u["kind"], u["text"][:160]), loc(w, u["site"]))
+    else:
+        ctx.ok(rule, inst, "%d panic obligation(s) in the wrapper's own code, all discharged" % tot, loc(w))
+
+
 def run(ctx):
     cfgs = ["default", "stateless"] if ctx.tier == "quick" else ["default", "stateless", "optimal", "arkzkey"]
     ctx.prefetch(cfgs + ["fixtures"])
@@ -188,6 +213,7 @@ def run(ctx):
         ctx.floor("ffi-wrappers[%s]" % cfg, len(ws), FLOOR.get(cfg, 30))
         for w in ws:
             check_wrapper(ctx, fb, w, cfg)
+            check_wrapper_panics(ctx, fb, w, cfg)
     # fixtures: every rule must fire on its look-alike
     fx = ctx.fb("fixtures")
     from ..main import Ctx
